@@ -1,7 +1,7 @@
 (* Property C13: the library functions that carry Lua names agree with Lua 5.4.
    Only the property theorems, each closed by [exact] of a lemma and followed by Print Assumptions.
    [lua_*] = reference (lstrlib.c / lutf8lib.c / lmathlib.c / lvm.c), [nl_*] = Nelua's port. *)
-From C13 Require Import Model ModelDrv ModelPack ModelUtf8 ModelPat ModelPatG ModelPackFmt ModelFmt ModelPackDrv ProofsIdx ProofsOrd ProofsDrv ProofsPack ProofsUtf8 ProofsPat ProofsPatFuel ProofsPatReads ProofsPackFmt ProofsFmt ProofsFmtDef ProofsFuel ProofsPackDrv.
+From C13 Require Import Model ModelDrv ModelPack ModelUtf8 ModelPat ModelPatG ModelPackFmt ModelFmt ModelPackDrv ProofsIdx ProofsOrd ProofsDrv ProofsPack ProofsUtf8 ProofsPat ProofsPatFuel ProofsPatReads ProofsPackFmt ProofsFmt ProofsFmtDef ProofsFmtBound ProofsFuel ProofsPackDrv.
 Local Open Scope Z_scope.
 
 (* ---- (a) index normalisation ---- *)
@@ -522,3 +522,17 @@ Theorem C13_match_generic_instance : forall cfg src pat fuel d caps s p,
   G.do_match cfg src pat (P pat) (S_ src) fuel d caps s p = do_match cfg src pat fuel d caps s p.
 Proof. exact inst_do_match. Qed.
 Print Assumptions C13_match_generic_instance.
+
+(* ---- the size bound of every snprintf call of string.format ----
+   C99 snprintf(buf, n, ...) writes at most n-1 bytes and returns the length of the full output, which formatarg
+   commits.  [nl_format_b] takes the n of every call site into account (scraped into Gen.v: MAX_ITEM for the numeric,
+   character and pointer sites, buf.size of the max(#s + 1, MAX_ITEM) bytes prepared for a modified %s): an output that
+   does not fit is cut, and then either the port stops (numeric sites) or bytes that were never written are committed
+   (%s: outcome Unsafe).  Theorem: that never happens - at every call site the full length is below the bound, for every
+   format, every integer and string argument, every width and precision - so nl_format_b IS the unbounded nl_format of the
+   other theorems.  The floats' formatter is a parameter, assumed to stay below MAX_ITEM (a longer float item makes the
+   port stop: 38f86f9). *)
+Theorem C13_format_never_truncated : forall cfloat, (forall form v, slen (cfloat form v) < NL_MAX_ITEM) ->
+  forall fmt args, nl_format_b cfloat fmt args = nl_format cfloat fmt args.
+Proof. exact format_never_truncated. Qed.
+Print Assumptions C13_format_never_truncated.
